@@ -51,6 +51,7 @@ FS_QUICK = [
     FSCfg("TR", "less", "greater", "s4", "basic", std="c++20"),  # operator<=>, erase_if
     FSCfg("int", "coarse", "less", "v", "amc"),  # raw arithmetic keys, equivalence coarser than equality
     FSCfg("TR", "fine", "less", "v", "basic"),  # comparator finer than the elements' operator==
+    FSCfg("NTRBIG", "less", "greater", "s4", "basic"),  # elements larger than a cache line
     FSCfg("NTR", "less", "greater", "f12"),  # a small bounded underlying vector: merges run into its capacity (out_of_range in the middle of a merge)
 ]
 FS_THOROUGH = [
@@ -315,6 +316,8 @@ COST_QUICK = [
     # narrow keys: thresholds expressed in bytes (elements per cache line) move with sizeof(T)
     CostCfg("K1", "less", "v"),
     CostCfg("K2", "greater", "s4", "basic"),
+    CostCfg("NTRBIG", "less", "v", "basic"),  # elements larger than a cache line
+    CostCfg("TRBIG", "greater", "s4", "basic"),
     CostCfg("TC8", "tless", "v"),  # transparent comparator: heterogeneous keys, incl. keys equivalent to long runs of elements
 ]
 COST_THOROUGH = [
